@@ -113,9 +113,15 @@ def result_to_df(result_obj: result.Result,
 
 
 def save_df_as_table(df: pd.DataFrame, path: str,
-                     format_str: str = SETTINGS.table_export_format,
-                     transpose: str = SETTINGS.table_export_transpose,
+                     format_str: typing.Optional[str] = None,
+                     transpose: typing.Optional[bool] = None,
                      confirm_overwrite: bool = False) -> None:
+    # Look up the settings at call time, they can be overridden (-c) after
+    # this module was imported.
+    if format_str is None:
+        format_str = SETTINGS.table_export_format
+    if transpose is None:
+        transpose = SETTINGS.table_export_transpose
     # pandas expands a leading "~" itself, the overwrite check has to look at
     # the file that will actually be written.
     path = os.path.expanduser(path)
